@@ -267,6 +267,7 @@ def stream_files(ctx):
     names = ['a', 'a.data', 'b', 'op_2.data', 'metadata', 'x.dat']
     base = tempfile.mkdtemp(prefix='ofv_c20_', dir=os.environ.get('TMPDIR'))
     try:
+        file_path_and_rejections(ctx, s, of, ou, base)
         for h in range(nh):
             d = os.path.join(base, 'h%d' % h)
             os.mkdir(d)
@@ -290,6 +291,69 @@ def stream_files(ctx):
     finally:
         shutil.rmtree(base, ignore_errors=True)
     return s
+
+
+def file_path_and_rejections(ctx, s, of, ou, base):
+    """get_file_path (incl. the default directory), empty names, operators save_operator must refuse"""
+    import sympy
+    from openfermion.config import DATA_DIRECTORY
+    names = ['a', 'a.data', '.data', 'data', 'x.dat', 'adata', 'a.data.data', 'a.DATA', 'dir/a', 'a b', '12345', 'abcd', 'abcde']
+    mo = ctx.driver.run([{'op': 'c20.file_path', 'name': n, 'dir': base} for n in names + ['']])
+    for n, m in zip(names + [''], mo):
+        c = {'file_name': n, 'call': 'get_file_path'}
+        s.case(c)
+        try:
+            r = ou.get_file_path(n, base)
+        except ou.OperatorUtilsError:
+            r = {'error': 'OperatorUtilsError:no-name'}
+        if r != m:
+            s.disagree('get_file_path', c, r, m)
+        if n:
+            s.count('oracle:file-path')
+            want = n if n.endswith('.data') else n + '.data'
+            if r != base + '/' + want:
+                s.violate('get_file_path does not append .data exactly when it is missing', c, {'path': r})
+            try:
+                if ou.get_file_path(n, None) != DATA_DIRECTORY + '/' + want:
+                    s.violate('get_file_path ignores the default data directory', c, {'path': ou.get_file_path(n, None)})
+            except Exception as e:  # noqa: BLE001
+                s.violate('get_file_path raised with the default directory', c, repr(e))
+        else:
+            for f in (lambda: ou.save_operator(of.QubitOperator('X0'), '', base), lambda: ou.load_operator('', base),
+                      lambda: ou.save_operator(of.QubitOperator('X0'), None, base)):
+                try:
+                    f()
+                    s.violate('an empty file name is accepted', c, None)
+                except ou.OperatorUtilsError:
+                    pass
+                except Exception as e:  # noqa: BLE001
+                    s.violate('an empty file name raises something else than OperatorUtilsError', c, repr(e))
+    d = os.path.join(base, 'reject')
+    os.mkdir(d)
+    ou.save_operator(of.FermionOperator('1^ 0', 2.0), 'keep', d)
+    before = dir_state(d)
+    bad = [('sympy coefficient', of.QubitOperator('X0', sympy.Symbol('x')), TypeError),
+           ('IsingOperator', of.IsingOperator('Z0'), TypeError),
+           ('not an operator', 3.5, TypeError),
+           ('InteractionOperator', of.InteractionOperator(0.0, __import__('numpy').zeros((1, 1)), __import__('numpy').zeros((1, 1, 1, 1))),
+            NotImplementedError)]
+    for label, obj, exc in bad:
+        for plain in (True, False):
+            for name in ('keep', 'fresh'):
+                c = {'call': 'save_operator', 'operator': label, 'file_name': name, 'plain_text': plain}
+                s.case(c)
+                s.count('oracle:rejected-save')
+                try:
+                    ou.save_operator(obj, name, d, allow_overwrite=True, plain_text=plain)
+                    s.violate('save_operator accepted an object it documents to refuse', c, None)
+                except exc:
+                    pass
+                except Exception as e:  # noqa: BLE001
+                    s.violate('save_operator refused with an undocumented exception', c, repr(e))
+                if dir_state(d) != before:
+                    s.violate('a refused save_operator changed the directory', c, {'before': before, 'after': dir_state(d)})
+                    before = dir_state(d)
+    shutil.rmtree(d, ignore_errors=True)
 
 
 def run_history(ctx, s, of, ou, d, steps):
